@@ -311,6 +311,29 @@ BigRewGames ==
             o \in {P1, P2}, three \in BOOLEAN,
             ra \in {3000000, 3000002, 10000000}, rb \in {3000000, 3000002, 10000007} }
 
+\* a tiny value travelling down a long chain of single-action states WHILE an unrelated,
+\* lower-numbered state is still converging (its change per sweep halves): the sweeps in
+\* which the largest change is already below the threshold but zero is still being left
+\*   1 init -> chain 3 .. L+2 -> tiny (L+3) ; 2 slow (orphan) ; L+4 lose ; L+5 win
+TinySlow ==
+    LET mk(L, W, o, slowfirst) ==
+          LET n == L + 5
+              tiny == L + 3  lose == L + 4  win == L + 5
+              slow == IF slowfirst THEN 2 ELSE L + 2
+              nxt(s) == IF slowfirst THEN s + 1 ELSE (IF s + 1 = slow THEN s + 2 ELSE s + 1)
+          IN  [n |-> n,
+               owner |-> [s \in 1..n |-> IF s \in {slow, tiny, lose, win} THEN PR ELSE o],
+               reward |-> [s \in 1..n |-> IF s = 1 THEN 1 ELSE 0],
+               tr |-> [s \in 1..n |->
+                         IF s = slow THEN <<Tr("", 1, slow), Tr("", 1, win)>>
+                         ELSE IF s = tiny THEN <<Tr("", 1, win), Tr("", W - 1, lose)>>
+                         ELSE IF s = lose THEN <<Tr("", 1, lose)>>
+                         ELSE IF s = win THEN <<Tr("", 1, win)>>
+                         ELSE IF s = 1 THEN <<Tr("go", 0, IF slowfirst THEN 3 ELSE 2)>>
+                         ELSE <<Tr("go", 0, IF nxt(s) > L + 2 \/ (nxt(s) = slow) THEN tiny ELSE nxt(s))>>],
+               final |-> <<win>>]
+    IN  { mk(L, W, o, sf) : L \in {24, 30}, W \in {3000000, 10000000}, o \in {P1, P2}, sf \in BOOLEAN }
+
 -----------------------------------------------------------------------------
 (* Ties: the initial state chooses between X and Y whose values are equal   *)
 (* as rationals but are computed along different arithmetic paths (and an   *)
